@@ -72,8 +72,12 @@ func manifestEqual(a, b []eng.Res) bool {
 }
 
 // clusterMatches: every resource of the manifest is live with exactly the declared data and
-// the declared labels/annotations (ownership metadata aside)
-func clusterMatches(m []eng.Res, objs map[string]map[string]string) string {
+// the declared labels/annotations (ownership metadata aside).  before = the objects as they were
+// when the operation started: an undeclared data field that was already there, with the same
+// value, is not this operation's doing (a strategic three-way merge leaves fields alone that
+// neither the revision it starts from nor its target names — C02_update_matches "foreign fields
+// stay"; after an EARLIER failed non-atomic upgrade such a field may be left in the cluster).
+func clusterMatches(m []eng.Res, objs, before map[string]map[string]string) string {
 	for _, r := range m {
 		live, ok := objs[r.Key()]
 		if !ok {
@@ -87,6 +91,9 @@ func clusterMatches(m []eng.Res, objs map[string]map[string]string) string {
 		for k, v := range live {
 			if strings.HasPrefix(k, "d:") {
 				if _, ok := r.Fields[k]; !ok {
+					if was, had := before[r.Key()][k]; had && was == v {
+						continue
+					}
 					return fmt.Sprintf("%s: live field %s=%q is not in the manifest", r.Key(), k, v)
 				}
 			}
@@ -103,7 +110,7 @@ func statusLine(l []eng.LedgerRow) string {
 	return strings.Join(s, " ")
 }
 
-func c03OracleStep(i int, op *eng.Op, so eng.StepObs, reqs []sim.Req, prev []eng.LedgerRow, wasDeployed map[int]bool, vs *[]hx.Violation) {
+func c03OracleStep(i int, op *eng.Op, so eng.StepObs, reqs []sim.Req, prev []eng.LedgerRow, prevObjs map[string]map[string]string, wasDeployed map[int]bool, vs *[]hx.Violation) {
 	add := func(sig, what string) {
 		*vs = append(*vs, hx.Violation{Sig: sig, What: fmt.Sprintf("step %d (%s): %s", i, op.Kind, what)})
 	}
@@ -226,7 +233,7 @@ func c03OracleStep(i int, op *eng.Op, so eng.StepObs, reqs []sim.Req, prev []eng
 			case !manifestEqual(last.Manifest, good.Manifest):
 				bad = fmt.Sprintf("revision %d does not carry the manifest of revision %d", last.Rev, good.Rev)
 			default:
-				bad = clusterMatches(good.Manifest, so.Objs)
+				bad = clusterMatches(good.Manifest, so.Objs, prevObjs)
 				if bad == "" {
 					gk := resKeys(good.Manifest)
 					for _, r := range target {
@@ -264,6 +271,31 @@ func c03OracleStep(i int, op *eng.Op, so eng.StepObs, reqs []sim.Req, prev []eng
 				}
 				if cur == nil && len(prev) > 0 {
 					cur = &prev[len(prev)-1]
+				}
+				// K12: with a history limit and no deployed revision (pruning only ever spares the deployed one) the
+				// upgrade's own Storage.Create pruned the revision the rollback would have been aimed at
+				if op.Flags.MaxHistory > 0 && picked != nil && len(fresh) == 1 {
+					gone, anyDeployed := true, false
+					for _, r := range so.Ledger {
+						if r.Rev == picked.Rev {
+							gone = false
+						}
+					}
+					for _, r := range prev {
+						if r.Status == "deployed" {
+							anyDeployed = true
+						}
+					}
+					stillGood := false
+					for _, r := range so.Ledger {
+						if had[r.Rev] && (r.Status == "superseded" || r.Status == "deployed") {
+							stillGood = true
+						}
+					}
+					if gone && !anyDeployed && !stillGood {
+						sig = "C03:atomic-rollback-target-pruned"
+						bad += fmt.Sprintf(" [history limit %d: revision %d, the only candidate for the rollback, was pruned when the upgrade stored its revision]", op.Flags.MaxHistory, picked.Rev)
+					}
 				}
 				if hookRefused != "" {
 					sig = "C03:atomic-recovery-aborted-by-its-own-hook" // K9
@@ -328,15 +360,17 @@ func (*c03) Oracle(ci, oi any) []hx.Violation {
 	h, o := ci.(eng.History), oi.(c12Obs)
 	var vs []hx.Violation
 	var prev []eng.LedgerRow
+	var prevObjs map[string]map[string]string
 	wasDeployed := map[int]bool{}
 	for i, s := range h.Steps {
 		if i >= len(o.Steps) || i >= len(o.Reqs) {
 			break
 		}
 		if s.Op != nil {
-			c03OracleStep(i, s.Op, o.Steps[i], o.Reqs[i], prev, wasDeployed, &vs)
+			c03OracleStep(i, s.Op, o.Steps[i], o.Reqs[i], prev, prevObjs, wasDeployed, &vs)
 		}
 		prev = o.Steps[i].Ledger
+		prevObjs = o.Steps[i].Objs
 		// revision numbers are reused after a purge: forget what no longer exists
 		alive := map[int]bool{}
 		for _, r := range prev {
